@@ -432,15 +432,16 @@ def bits_from_aff(aff, w):
 # ------------------------------------------------------------------ bit vectors
 
 class BV:
-    __slots__ = ('w', 'bits', 'signed', 'aff')
+    __slots__ = ('w', 'bits', 'signed', 'aff', 'nw')
 
-    def __init__(self, w, bits, signed=False, aff=None):
+    def __init__(self, w, bits, signed=False, aff=None, nw=None):
         bits = tuple(bits)
         assert len(bits) == w, (w, len(bits))
         self.w = w
         self.bits = bits
         self.signed = signed
         self.aff = aff
+        self.nw = nw  # key of the overflow predicate under whose negation `aff` holds without wrap-around
 
     @staticmethod
     def const(w, v, signed=False):
